@@ -44,6 +44,24 @@ Definition pgm_ok_b (levels : list (Z * list item)) (pg : Z * Z * Z) : bool :=
   | None => (n =? 0) && (nsegs =? 0)                             (* emptied level: index reset *)
   end.
 
+(* "built over exactly that level's current keys", as far as the dumped segments show it: the first segment starts at the
+   level's first key and every segment key is a key of the level or lies above its last key (closing / sentinel segments) *)
+Definition pgm_keys_ok_b (levels : list (Z * list item)) (i : Z) (segkeys : list Z) : bool :=
+  match List.find (fun lv => fst lv =? i) levels with
+  | Some (_, items) =>
+      match items with
+      | [] => true
+      | it0 :: _ =>
+          let keys := map it_key items in
+          let lastk := last keys (it_key it0) in
+          match segkeys with
+          | [] => false
+          | k0 :: _ => (k0 =? it_key it0) && forallb (fun k => (lastk <? k) || existsb (Z.eqb k) keys) segkeys
+          end
+      end
+  | None => true
+  end.
+
 Definition indexed_b (min_index_level : Z) (pgms : list (Z * Z * Z)) (lv : Z * list item) : bool :=
   let '(i, items) := lv in
   if (i >=? min_index_level) && negb (zlen items =? 0)
